@@ -503,14 +503,19 @@ class CNF(SimpleSequence[Clause]):
     def _assert_unsatisfiable(self, in_list: Sequence[Var]):
         """Appends a contradiction, for an assertion about ``in_list`` that no
         assignment can meet."""
-        self.prepend(CNF([Clause(in_list[0]), Clause(~in_list[0])]))
+        # Any variable will do; an assertion about no variables at all gets a fresh one
+        var = in_list[0] if in_list else self.get_n_fresh(1)[0]
+        self.prepend(CNF([Clause(var), Clause(~var)]))
 
     def assert_k_of_n(self, k: int, in_list: Sequence[Var]):
         # TODO DOC
         # TODO: Describe this function's purpose.
-        if in_list and k > len(in_list):
+        if k > len(in_list):
             # The bit-width arithmetic below only covers 0 <= k <= n.
             self._assert_unsatisfiable(in_list)
+            return
+        if not in_list:
+            # Exactly 0 of no variables: always true, nothing to assert.
             return
         in_binary =  int_to_binary(k)
         sum_bits = self.pop_count(in_list, len(in_binary)+1)
@@ -526,14 +531,18 @@ class CNF(SimpleSequence[Clause]):
 
     def assert_k_less_than_n(self, k: int, in_list: Sequence[Var]):
         # TODO DOC
-        if in_list and k > len(in_list):
+        if k > len(in_list):
             # Fewer than k of n < k variables: always true, nothing to assert.
+            return
+        if not in_list:
+            # Fewer than 0 of no variables: never true.
+            self._assert_unsatisfiable(in_list)
             return
         self._inequality_assertion(True, k, in_list)
 
     def assert_k_greater_than_n(self, k: int, in_list: Sequence[Var]):
         # TODO DOC
-        if in_list and k >= len(in_list):
+        if k >= len(in_list):
             # More than k of n <= k variables: never true.
             self._assert_unsatisfiable(in_list)
             return
